@@ -12,10 +12,11 @@ SCALAR_TAGS = ['float', 'int', 'np.float64', 'np.float32', 'np.int64']
 def tagged(c, name, tag, lo=0):
     """A non-negative hyper-parameter value of the given type form.  Integer
     forms carry an integer value (the same numeric value is used for all forms)."""
-    v = c.int(name, lo, 5)
     if tag in ('int', 'np.int64'):
-        return core.SymInt(v.e, tag), v
-    return core.SymReal(z3.ToReal(v.e), tag), v
+        v = c.int(name, lo, 5)
+        return core.SymInt(v.e, tag), core.SymReal(z3.ToReal(v.e), 'float')
+    v = c.real(name, lo, 5)
+    return core.SymReal(v.e, tag), core.SymReal(v.e, 'float')
 
 
 class C18(Check):
@@ -36,15 +37,15 @@ class C18(Check):
     }
     stubs = ['type forms are type tags on the symbolic value; the real isinstance dispatch runs against the tag',
              'soft_threshold_prox summarised by its merged If-term (C02)']
-    assumptions = ['REAL arithmetic: bit-level differences between lambda*R and a left-to-right sum are outside']
-    outside_claim = ['np.float32 rounding of the value itself (the same real value is used for all forms)',
+    assumptions = ['REAL arithmetic, except that an operation carried out in a narrow NumPy float type (np.float32, np.float16) is an uninterpreted rounding of the exact result']
+    outside_claim = ['the rounding of a value when it is first converted to a narrow type (the same real value is used for all forms)',
                      'bitwise identity of complete float results']
     canary = {'what': 'scalar lambda multiplied by the block count instead of the class size',
               'edits': [('fast_ticc/admm/solver.py', '        return float(lambda_parameter) * num_occurrences',
                          '        return float(lambda_parameter) * num_blocks')]}
 
     def bounds(self, tier):
-        return {'(N,W)': [(1, 1), (2, 1), (1, 2)] if tier == 'quick' else [(1, 1), (2, 1), (1, 2), (2, 2), (1, 3), (3, 1)],
+        return {'(N,W)': [(1, 1), (2, 1), (1, 2), (1, 3)] if tier == 'quick' else [(1, 1), (2, 1), (1, 2), (2, 2), (1, 3), (3, 1), (1, 4)],
                 'type forms': SCALAR_TAGS, 'kernel': 'T<=3,K=2', 'filter': '2x2'}
 
     def configs(self, tier):
@@ -95,8 +96,7 @@ class C18(Check):
     def lam_type(self, c, N, W, tag):
         n = N * W
         L = n * (n + 1) // 2
-        lam, v = tagged(c, 'lam', tag)
-        ref = core.SymReal(z3.ToReal(v.e), 'float')
+        lam, ref = tagged(c, 'lam', tag)
         x = stubs.sym_array(c, 'x', (L,))
         u = stubs.sym_array(c, 'u', (L,))
         rho = c.real('rho')
@@ -113,8 +113,8 @@ class C18(Check):
     def beta(self, c, T, K, tag):
         Rp = self.R
         cost = stubs.sym_array(c, 'c', (T, K))
-        b, v = tagged(c, 'b', tag)
-        vec = np.ndarray._new([core.SymReal(z3.ToReal(v.e))] * T, (T,), np.float64, owner='caller')
+        b, bref = tagged(c, 'b', tag)
+        vec = np.ndarray._new([bref] * T, (T,), np.float64, owner='caller')
         c.notes.update({'T': T, 'K': K, 'kind': 'beta', 'tag': tag})
         ok, r1 = guarded(c, 'beta_forms_agree', Rp.cla.assign_point_cluster_labels, cost, b)
         if not ok:
@@ -125,8 +125,7 @@ class C18(Check):
 
     def floor(self, c, tag):
         Rp = self.R
-        eps, v = tagged(c, 'eps', tag)
-        ref = core.SymReal(z3.ToReal(v.e), 'float')
+        eps, ref = tagged(c, 'eps', tag)
         M = stubs.sym_array(c, 'm', (2, 2))
         c.notes.update({'kind': 'floor', 'tag': tag})
         out_ref = Rp.gl._zero_small_elements(M, ref)
